@@ -673,18 +673,27 @@ func TestPublicationVersions(t *testing.T) {
 			before = proto.Clone(before).(*traits.Publication)
 			switch rapid.SampledFrom([]string{"update", "update-masked", "update-stale", "ack", "ack-stale", "ack-again-allowed"}).Draw(t, "op") {
 			case "update-masked":
-				// only the body is written (update_mask=["body"]); media type and audience stay as they are
+				// only one part is written (update_mask=["body"] or ["audience.name"]); the rest stays as it is
 				c := cur
-				c.body = rapid.SampledFrom([]string{"b1", "b2", "b3"}).Draw(t, "maskedBody")
 				c0 := clk.peek()
-				res, err := srv.UpdatePublication(ctx, &traits.UpdatePublicationRequest{Name: "n", Publication: &traits.Publication{Id: "p", Body: []byte(c.body)},
-					UpdateMask: &fieldmaskpb.FieldMask{Paths: []string{"body"}}, Version: before.Version})
-				hist = append(hist, fmt.Sprintf("update-masked(body=%s)", c.body))
+				var res *traits.Publication
+				var err error
+				if rapid.Bool().Draw(t, "maskedAudience") {
+					c.aud = rapid.SampledFrom([]string{"", "aud", "aud2"}).Draw(t, "maskedAud")
+					res, err = srv.UpdatePublication(ctx, &traits.UpdatePublicationRequest{Name: "n", Publication: &traits.Publication{Id: "p", Audience: &traits.Publication_Audience{Name: c.aud}},
+						UpdateMask: &fieldmaskpb.FieldMask{Paths: []string{"audience.name"}}, Version: before.Version})
+					hist = append(hist, fmt.Sprintf("update-masked(audience.name=%s)", c.aud))
+				} else {
+					c.body = rapid.SampledFrom([]string{"b1", "b2", "b3"}).Draw(t, "maskedBody")
+					res, err = srv.UpdatePublication(ctx, &traits.UpdatePublicationRequest{Name: "n", Publication: &traits.Publication{Id: "p", Body: []byte(c.body)},
+						UpdateMask: &fieldmaskpb.FieldMask{Paths: []string{"body"}}, Version: before.Version})
+					hist = append(hist, fmt.Sprintf("update-masked(body=%s)", c.body))
+				}
 				if err != nil {
 					t.Fatalf("masked UpdatePublication with the current version failed: %v\nhistory: %s", err, strings.Join(hist, " "))
 				}
-				if string(res.Body) != c.body || res.MediaType != cur.media || res.GetAudience().GetName() != cur.aud {
-					t.Fatalf("masked update of the body gave %v, want body %q with media type %q and audience %q kept\nhistory: %s", res, c.body, cur.media, cur.aud, strings.Join(hist, " "))
+				if string(res.Body) != c.body || res.MediaType != c.media || res.GetAudience().GetName() != c.aud {
+					t.Fatalf("masked update gave %v, want body %q, media type %q and audience %q (only the masked part changes)\nhistory: %s", res, c.body, c.media, c.aud, strings.Join(hist, " "))
 				}
 				if v, ok := versionOf[c]; ok && v != res.Version {
 					t.Fatalf("same content %v got version %q before and %q now: the version must be a function of the content\nhistory: %s", c, v, res.Version, strings.Join(hist, " "))
